@@ -65,132 +65,212 @@ def _int(tok, t4, what):
         return None
 
 
+_G_STMT = ('TITLE', 'HASH_TABLE', 'TRANSFORM', 'SURF', 'VOLU', 'ENDG')
+_INT_RE = re.compile(r'^[-+]?\d+$')
+
+
+class _Lex:
+    """Free-format token stream: blanks and line breaks separate tokens, // comments run to the end of the
+    line, /* */ comments are dropped.  Comments met while reading are kept in `comments` so that a statement
+    can claim the ones that follow it."""
+
+    def __init__(self, text):
+        text = re.sub(r'/\*.*?\*/', lambda m: re.sub(r'[^\n]', ' ', m.group(0)), text, flags=re.S)
+        self.items = []
+        for ln, raw in enumerate(text.split('\n')):
+            line, sep, comment = raw.partition('//')
+            for t in line.split():
+                self.items.append((t, ln))
+            if sep:
+                self.items.append((None, ln, comment))
+        self.pos = 0
+        self.comments = []
+
+    def _skip(self):
+        while self.pos < len(self.items) and self.items[self.pos][0] is None:
+            self.comments.append(self.items[self.pos][2])
+            self.pos += 1
+
+    def peek(self):
+        self._skip()
+        return self.items[self.pos][0] if self.pos < len(self.items) else None
+
+    def next(self):
+        self._skip()
+        if self.pos >= len(self.items):
+            return None
+        t = self.items[self.pos][0]
+        self.pos += 1
+        return t
+
+    def skip_line(self):
+        """drop the remaining tokens of the line of the token just read"""
+        ln = self.items[self.pos - 1][1]
+        while self.pos < len(self.items) and self.items[self.pos][1] == ln:
+            self.pos += 1
+
+    def take_comments(self):
+        self._skip()
+        c, self.comments = ' '.join(x.strip() for x in self.comments), []
+        return c
+
+
 def parse(text):
     t4 = T4File()
-    lines = text.split('\n')
-    sec = None
-    i = 0
-    n = len(lines)
-    pending_compo = None
-    while i < n:
-        raw = lines[i]
-        i += 1
-        line, sep, comment = raw.partition('//')
-        tok = line.split()
-        if not tok:
-            continue
-        head = tok[0]
-        if sec is None:
-            if head == 'GEOMETRY':
-                sec = 'G'; t4.sections.append('GEOMETRY'); continue
-            if head == 'COMPOSITION':
-                sec = 'C'; t4.sections.append('COMPOSITION')
-                # next non-empty line holds the count
-                while i < n and not lines[i].split():
-                    i += 1
-                if i < n:
-                    t4.ncompos_declared = _int(lines[i].split()[0], t4, 'COMPOSITION count')
-                    i += 1
-                continue
-            if head == 'GEOMCOMP':
-                sec = 'GC'; t4.sections.append('GEOMCOMP'); continue
-            if head == 'BOUNDARY_CONDITION':
-                sec = 'BC'; t4.sections.append('BOUNDARY_CONDITION')
-                while i < n and not lines[i].split():
-                    i += 1
-                if i < n:
-                    t4.nbc_declared = _int(lines[i].split()[0], t4, 'BOUNDARY_CONDITION count')
-                    i += 1
-                continue
-            if head == 'LANG':
-                continue
-            t4.problem('syntax', 'unexpected top-level line %r' % raw)
-            continue
-        if sec == 'G':
-            if head == 'ENDG':
-                sec = None
-            elif head in ('TITLE', 'HASH_TABLE'):
-                pass
-            elif head == 'TRANSFORM':
-                tid = _int(tok[1], t4, 'TRANSFORM id') if len(tok) > 1 else None
-                if len(tok) != 15 or tok[2] != 'MATRIX':
-                    t4.problem('syntax', 'bad TRANSFORM line %r' % raw)
-                    continue
-                vals = [_num(x, t4, 'TRANSFORM %s' % tid) for x in tok[3:15]]
-                if tid in t4.transforms:
-                    t4.problem('duplicate-id', 'TRANSFORM %s defined twice' % tid)
-                t4.transforms[tid] = vals
-            elif head == 'SURF':
-                if len(tok) < 3:
-                    t4.problem('syntax', 'bad SURF line %r' % raw); continue
-                sid = _int(tok[1], t4, 'SURF id')
-                j = 2
-                tr = None
-                if tok[j] == 'TRANSFORM':
-                    tr = _int(tok[j + 1], t4, 'SURF TRANSFORM ref') if len(tok) > j + 1 else None
-                    j += 2
-                kind = tok[j] if j < len(tok) else None
-                if kind not in SURF_ARITY:
-                    t4.problem('syntax', 'unknown surface type in %r' % raw); continue
-                params = [_num(x, t4, 'SURF %s' % sid) for x in tok[j + 1:]]
-                if len(params) != SURF_ARITY[kind]:
-                    t4.problem('count', 'SURF %s %s has %d parameters, expected %d'
-                               % (sid, kind, len(params), SURF_ARITY[kind]))
-                if sid in t4.surfs:
-                    t4.problem('duplicate-id', 'SURF %s defined twice' % sid)
-                t4.surfs[sid] = (kind, params, tr)
-                t4.surf_comment[sid] = comment.strip()
-            elif head == 'VOLU':
-                _parse_volu(t4, tok, raw, comment)
-            else:
-                t4.problem('syntax', 'unexpected line in GEOMETRY %r' % raw)
-        elif sec == 'C':
-            if head == 'END_COMPOSITION':
-                sec = None
-                pending_compo = None
-            elif head in ('DENSITY', 'POINT_WISE'):
-                c = dict(kind=head, temp=None, name=None, density=None,
-                         nb_atom=False, n=None, items=[])
-                rest = tok[1:]
-                try:
-                    c['temp'] = _num(rest[0], t4, 'composition temperature')
-                    c['name'] = rest[1]
-                    k = 2
-                    if head == 'DENSITY':
-                        c['density'] = _num(rest[k], t4, 'DENSITY of %s' % c['name']); k += 1
-                        if rest[k] == 'NB_ATOM':
-                            c['nb_atom'] = True; k += 1
-                    c['n'] = _int(rest[k], t4, 'nuclide count of %s' % c['name'])
-                    if len(rest) != k + 1:
-                        t4.problem('syntax', 'trailing tokens in %r' % raw)
-                except IndexError:
-                    t4.problem('syntax', 'truncated composition line %r' % raw)
-                t4.compos.append(c)
-                pending_compo = c
-            else:
-                if pending_compo is None or len(tok) != 2:
-                    t4.problem('syntax', 'unexpected line in COMPOSITION %r' % raw)
-                else:
-                    pending_compo['items'].append(
-                        (tok[0], _num(tok[1], t4, 'fraction of %s' % tok[0]), tok[1]))
-        elif sec == 'GC':
-            if head == 'END_GEOMCOMP':
-                sec = None
-            else:
-                cnt = _int(tok[1], t4, 'GEOMCOMP count') if len(tok) > 1 else None
-                ids = [_int(x, t4, 'GEOMCOMP volume id') for x in tok[2:]]
-                t4.geomcomp.append((head, cnt, ids))
-        elif sec == 'BC':
-            if head == 'END_BOUNDARY_CONDITION':
-                sec = None
-            elif head == 'ALL_COMPLETE' and len(tok) == 3:
-                t4.bcs.append((tok[1], _int(tok[2], t4, 'boundary surface id')))
-            else:
-                t4.problem('syntax', 'unexpected line in BOUNDARY_CONDITION %r' % raw)
-    if sec is not None:
-        t4.problem('syntax', 'section %s not closed' % sec)
+    lx = _Lex(text)
+    while True:
+        head = lx.next()
+        if head is None:
+            break
+        if head == 'LANG':
+            lx.next()
+        elif head == 'GEOMETRY':
+            t4.sections.append('GEOMETRY')
+            _parse_geometry(t4, lx)
+        elif head == 'COMPOSITION':
+            t4.sections.append('COMPOSITION')
+            _parse_compositions(t4, lx)
+        elif head == 'GEOMCOMP':
+            t4.sections.append('GEOMCOMP')
+            _parse_geomcomp(t4, lx)
+        elif head == 'BOUNDARY_CONDITION':
+            t4.sections.append('BOUNDARY_CONDITION')
+            _parse_bc(t4, lx)
+        else:
+            t4.problem('syntax', 'unexpected top-level token %r' % head)
     _structural(t4)
     return t4
+
+
+def _parse_geometry(t4, lx):
+    lx.take_comments()
+    while True:
+        head = lx.next()
+        if head is None:
+            t4.problem('syntax', 'section GEOMETRY not closed')
+            return
+        if head == 'ENDG':
+            return
+        if head == 'TITLE':
+            lx.skip_line()
+        elif head == 'HASH_TABLE':
+            pass
+        elif head == 'TRANSFORM':
+            tid = _int(lx.next(), t4, 'TRANSFORM id')
+            if lx.peek() != 'MATRIX':
+                t4.problem('syntax', 'TRANSFORM %s: MATRIX expected, %r found' % (tid, lx.peek()))
+                continue
+            lx.next()
+            vals = []
+            while lx.peek() is not None and lx.peek() not in _G_STMT:
+                vals.append(_num(lx.next(), t4, 'TRANSFORM %s' % tid))
+            if len(vals) != 12:
+                t4.problem('count', 'TRANSFORM %s MATRIX has %d entries, expected 12' % (tid, len(vals)))
+            if tid in t4.transforms:
+                t4.problem('duplicate-id', 'TRANSFORM %s defined twice' % tid)
+            t4.transforms[tid] = vals
+            lx.take_comments()
+        elif head == 'SURF':
+            sid = _int(lx.next(), t4, 'SURF id')
+            tr = None
+            if lx.peek() == 'TRANSFORM':
+                lx.next()
+                tr = _int(lx.next(), t4, 'SURF TRANSFORM ref')
+            kind = lx.next()
+            toks = []
+            while lx.peek() is not None and lx.peek() not in _G_STMT:
+                toks.append(lx.next())
+            comment = lx.take_comments()
+            if kind not in SURF_ARITY:
+                t4.problem('syntax', 'unknown surface type %r in SURF %s' % (kind, sid))
+                continue
+            params = [_num(x, t4, 'SURF %s' % sid) for x in toks]
+            if len(params) != SURF_ARITY[kind]:
+                t4.problem('count', 'SURF %s %s has %d parameters, expected %d'
+                           % (sid, kind, len(params), SURF_ARITY[kind]))
+            if sid in t4.surfs:
+                t4.problem('duplicate-id', 'SURF %s defined twice' % sid)
+            t4.surfs[sid] = (kind, params, tr)
+            t4.surf_comment[sid] = comment
+        elif head == 'VOLU':
+            tok = ['VOLU']
+            closed = False
+            while lx.peek() is not None and lx.peek() not in _G_STMT:
+                t = lx.next()
+                tok.append(t)
+                if t == 'ENDV':
+                    closed = True
+                    break
+            comment = lx.take_comments()
+            if not closed:
+                t4.problem('syntax', 'VOLU %s is not closed by ENDV' % (tok[1] if len(tok) > 1 else '?'))
+                continue
+            _parse_volu(t4, tok, ' '.join(tok), comment)
+        else:
+            t4.problem('syntax', 'unexpected token in GEOMETRY %r' % head)
+
+
+def _parse_compositions(t4, lx):
+    t4.ncompos_declared = _int(lx.next(), t4, 'COMPOSITION count')
+    ends = ('DENSITY', 'POINT_WISE', 'END_COMPOSITION')
+    while True:
+        head = lx.next()
+        if head is None:
+            t4.problem('syntax', 'section COMPOSITION not closed')
+            return
+        if head == 'END_COMPOSITION':
+            return
+        if head not in ('DENSITY', 'POINT_WISE'):
+            t4.problem('syntax', 'unexpected token in COMPOSITION %r' % head)
+            continue
+        c = dict(kind=head, temp=None, name=None, density=None, nb_atom=False, n=None, items=[])
+        c['temp'] = _num(lx.next(), t4, 'composition temperature')
+        c['name'] = lx.next()
+        if head == 'DENSITY':
+            c['density'] = _num(lx.next(), t4, 'DENSITY of %s' % c['name'])
+            if lx.peek() == 'NB_ATOM':
+                c['nb_atom'] = True
+                lx.next()
+        c['n'] = _int(lx.next(), t4, 'nuclide count of %s' % c['name'])
+        rest = []
+        while lx.peek() is not None and lx.peek() not in ends:
+            rest.append(lx.next())
+        if len(rest) % 2:
+            t4.problem('syntax', 'composition %s: odd number of tokens in the nuclide list' % c['name'])
+        for k in range(0, len(rest) - 1, 2):
+            c['items'].append((rest[k], _num(rest[k + 1], t4, 'fraction of %s' % rest[k]), rest[k + 1]))
+        t4.compos.append(c)
+
+
+def _parse_geomcomp(t4, lx):
+    while True:
+        head = lx.next()
+        if head is None:
+            t4.problem('syntax', 'section GEOMCOMP not closed')
+            return
+        if head == 'END_GEOMCOMP':
+            return
+        cnt = _int(lx.next(), t4, 'GEOMCOMP count')
+        ids = []
+        while lx.peek() is not None and _INT_RE.match(lx.peek()):
+            ids.append(int(lx.next()))
+        t4.geomcomp.append((head, cnt, ids))
+
+
+def _parse_bc(t4, lx):
+    t4.nbc_declared = _int(lx.next(), t4, 'BOUNDARY_CONDITION count')
+    while True:
+        head = lx.next()
+        if head is None:
+            t4.problem('syntax', 'section BOUNDARY_CONDITION not closed')
+            return
+        if head == 'END_BOUNDARY_CONDITION':
+            return
+        if head == 'ALL_COMPLETE':
+            kind = lx.next()
+            t4.bcs.append((kind, _int(lx.next(), t4, 'boundary surface id')))
+        else:
+            t4.problem('syntax', 'unexpected token in BOUNDARY_CONDITION %r' % head)
 
 
 def _parse_volu(t4, tok, raw, comment):
